@@ -11,41 +11,7 @@ NOTE_COMMON = ("Trusted: Coq 8.16.1 kernel (+vm_compute, no native_compute); too
                "models of CPython built-ins. Print Assumptions output of every property theorem is copied into the "
                "evidence file on each run. ")
 
-CHECKS = {
-    "C06": dict(
-        text=("Theorems in coq/Props/C06.v, for ALL code-point lists without LF and of any length: the physical "
-              "lines of foldline(l) are a first segment and then exactly one added SPACE plus the next segment, the "
-              "segments concatenate to l (no character split or lost), every physical line has <= 75 octets, the "
-              "library's unfold regex and the RFC unfolding both restore l, and the ASCII fast path equals the "
-              "general path. The constants 75 and CRLF-SPACE are regenerated from parser.py on every run; the "
-              "algorithmic model is tied to parser.foldline / Contentline.to_ical / from_ical by a correspondence "
-              "run (every ASCII length 0-400, every alignment of 2/3/4-octet characters against the boundary, "
-              "SP/TAB/CR at the fold point, random mixes) and the property oracle is also run directly on "
-              "Component.to_ical output."),
-        note=NOTE_COMMON + "Modelled, not verified: str.encode('utf-8') length (ulen), the regex uFOLD as a scanner.",
-        technique="Rocq proof by induction over the line with the running octet count as invariant; model tied by "
-                  "translator (constants) + differential correspondence (extracted OCaml model vs implementation)",
-        design="6/C06"),
-    "C07": dict(
-        text=("Theorems in coq/Props/C07.v for ALL code-point strings of any length: (C07_direct) if s does not "
-              "contain backslash+'n' then vText.from_ical(vText(s).to_ical()) = norm(s); (C07_line) if s contains "
-              "none of \\n \\\\ \\, \\; %2C %3A %3B %5C then the value read back from a content line "
-              "(escape_char, escape_string, unescape_string, unescape_char) is norm(s). Both follow from reflective "
-              "certificates (21 and 1856 product states) for the replace chains REGENERATED from parser.py on every "
-              "run, checked by a checker whose soundness is proved once by induction on the input "
-              "(Proofs/ChainProofs.bisim_sound); reordering, dropping or altering a replace changes the obligation. "
-              "Outside the guards the property is refuted in Coq with witnesses (C07_*_refuted) = open known "
-              "findings C07-F1..F3. The CATEGORIES clause and the well-escapedness clause are so far decided by "
-              "correspondence + direct oracle only (partial). Model tied to the code by translator (chains) and "
-              "correspondence of leaf functions and of the three end-to-end paths on all strings of length <= 3 (4 "
-              "thorough) over the 14-symbol critical alphabet plus random long Unicode strings."),
-        note=NOTE_COMMON + "Modelled, not verified: str.replace as the streaming stage machine of Lib/Chain.v; the "
-             "splitting of a content line into name/params/value (Contentline.parts) is covered by correspondence "
-             "here and by C05's model.",
-        technique="Rocq proof by reflective certificate: verified product-state bisimulation checker for replace "
-                  "chains + unverified explorer; chains regenerated from source; differential correspondence",
-        design="6/C07, 3.1"),
-}
+CHECKS = {}      # filled from tools/manifest.d/*.json
 
 PENDING_REASON = "check not built yet in this session (planned as a Rocq proof + correspondence, see DESIGN.md section 6)"
 
